@@ -26,6 +26,11 @@ type Endpoint struct {
 	Code      int
 	Certs     []int    // indexes into the certificate pool
 	Comments  []string // one per certificate ("" = none)
+	// ErrText: the status message of an RPC error ("" = a harness text); messages real CAs send, "%d" = the request's validity
+	ErrText string `json:",omitempty"`
+	// Decor: how the reply text is laid out around the certificate lines: "" | blank-end (an extra empty
+	// line at the end) | crlf (CR LF line ends) | remark-end (a '#' line at the end) | blank-start | spaces-end
+	Decor string `json:",omitempty"`
 	// Later: behaviour in the later calls on the same Signer ("" = unchanged); only sign / rpcerr
 	Later     string
 	LaterCode int
@@ -85,7 +90,20 @@ func keyText(e Endpoint) string {
 		}
 		b.WriteString(line + "\n")
 	}
-	return b.String()
+	text := b.String()
+	switch e.Decor {
+	case "blank-end":
+		text += "\n"
+	case "crlf":
+		text = strings.ReplaceAll(text, "\n", "\r\n")
+	case "remark-end":
+		text += "# issued by the harness CA\n"
+	case "blank-start":
+		text = "\n" + text
+	case "spaces-end":
+		text += "  \n"
+	}
+	return text
 }
 
 func genEndpoint(t *rapid.T, label string) Endpoint {
@@ -96,7 +114,13 @@ func genEndpoint(t *rapid.T, label string) Endpoint {
 	switch e.Behaviour {
 	case "rpcerr":
 		e.Code = rapid.IntRange(1, 16).Draw(t, label+"Code")
+		if rapid.IntRange(0, 2).Draw(t, label+"RealText") == 1 {
+			// what a real CA says (the texts carry numbers and hints a client might be tempted to act on)
+			e.Code = rapid.SampledFrom([]int{3, 3, 9, 8, 14, 7}).Draw(t, label+"RealCode")
+			e.ErrText = rapid.SampledFrom([]string{"Bad request: requested validity %d is greater than maximum allowed validity 3600", "requested validity %d is greater than maximum allowed validity 1", "Bad request: unknown key identifier, use ssh-user-key-2", "Bad request: at most 1 principal allowed", "retry after 1s", "Bad request: validity must be at least 43200", "certificate signing is rate limited, try endpoint 127.0.0.9"}).Draw(t, label+"ErrText")
+		}
 	case "sign":
+		e.Decor = rapid.SampledFrom([]string{"", "", "", "blank-end", "crlf", "remark-end", "blank-start", "spaces-end"}).Draw(t, label+"Decor")
 		n := rapid.IntRange(1, 3).Draw(t, label+"N")
 		if rapid.IntRange(0, 30).Draw(t, label+"ManyCerts") == 14 {
 			n = rapid.SampledFrom([]int{12, 40, 100}).Draw(t, label+"NMany") // nothing bounds the number of certificates in a reply
@@ -176,7 +200,7 @@ func exec(c Case) (vh.Outcome, error) {
 	for i, e := range c.Endpoints {
 		ip := fmt.Sprintf("127.0.0.%d", i+2)
 		ips = append(ips, ip)
-		specs = append(specs, vh.CAServerSpec{IP: ip, Behaviour: e.Behaviour, Code: e.Code, Later: e.Later, LaterCode: e.LaterCode, KeyText: keyText(e), ClientAuth: "request", HangFor: 4 * time.Second})
+		specs = append(specs, vh.CAServerSpec{IP: ip, Behaviour: e.Behaviour, Code: e.Code, ErrText: e.ErrText, Later: e.Later, LaterCode: e.LaterCode, KeyText: keyText(e), ClientAuth: "request", HangFor: 4 * time.Second})
 	}
 	g, err := vh.StartCAGroup(specs)
 	if err != nil {
@@ -353,7 +377,7 @@ func behaviours(c Case) []string {
 	return b
 }
 
-const rule = "endpoint lists of length 0..4 over 127.0.0.2..5 sharing one port, served by real gRPC-over-TLS Signing servers; per endpoint: signs 1..3 (one in 30: 12 / 40 / 100) certificates (small ones, rarely one of 64 KiB / 130 KiB) with comment shapes (none, one word, several words, non-ASCII, a key-type look-alike, 4 KB, 70 KB), RPC error with any status code 1..16, empty key text, unparsable key text, no listener, hangs past the per-try deadline (rare); real crypki signer (NewSigner, or NewSignerWithGensignConf from a configuration map) with real TLS material, retries = 1; 1..3 Sign calls on the same Signer, with endpoints recovering or starting to fail after the first call, at RPC level (status code) and at connection level (an address without listener starts listening; a listening one goes away); a tenth of the cases enter Sign with a cancelled or expired context (deadline failure of every endpoint); request fields generated (0..8 principals, KeyID, validity, identifier, extensions, critical options). Oracle: contacted = the prefix up to and including the first signing endpoint, in order, each once, each receiving a request proto.Equal to the input; result = that endpoint's certificates and comments, same length, CA order; no signing endpoint or an empty list => non-nil error, never (nil, nil, nil). Non-trivial: a failing endpoint before a signing one, or all failing."
+const rule = "endpoint lists of length 0..4 over 127.0.0.2..5 sharing one port, served by real gRPC-over-TLS Signing servers; per endpoint: signs 1..3 (one in 30: 12 / 40 / 100) certificates (small ones, rarely one of 64 KiB / 130 KiB) with comment shapes (none, one word, several words, non-ASCII, a key-type look-alike, 4 KB, 70 KB) and reply layouts (an extra empty or '#' line at the end, an empty line in front, CR LF line ends, a line of blanks at the end), RPC error with any status code 1..16 (a third of them with the texts real CAs send: maximum validity exceeded, unknown key identifier, too many principals, rate limit hints), empty key text, unparsable key text, no listener, hangs past the per-try deadline (rare); real crypki signer (NewSigner, or NewSignerWithGensignConf from a configuration map) with real TLS material, retries = 1; 1..3 Sign calls on the same Signer, with endpoints recovering or starting to fail after the first call, at RPC level (status code) and at connection level (an address without listener starts listening; a listening one goes away); a tenth of the cases enter Sign with a cancelled or expired context (deadline failure of every endpoint); request fields generated (0..8 principals, KeyID, validity, identifier, extensions, critical options). Oracle: contacted = the prefix up to and including the first signing endpoint, in order, each once, each receiving a request proto.Equal to the input; result = that endpoint's certificates and comments, same length, CA order; no signing endpoint or an empty list => non-nil error, never (nil, nil, nil). Non-trivial: a failing endpoint before a signing one, or all failing."
 
 func TestC17Failover(t *testing.T) {
 	vh.Run(t, vh.Spec[Case]{Property: "C17", Name: "TestC17Failover", Rule: rule, Gen: gen, Exec: exec})
